@@ -92,7 +92,7 @@ func init() {
 			o.Attrs["timeout"] = args[1]
 		}
 		e.ctxTimeouts = append(e.ctxTimeouts, o)
-		if e.hcfg != nil && e.hcfg.Timers {
+		if e.hcfg != nil && e.hcfg.Timers && e.hcfg.CtxTimers {
 			ch := &ChanObj{ID: e.newID(), Cap: 0, Name: "ctx.Done"}
 			o.Attrs["done"] = ch
 			o.Attrs["err"] = Iface{T: errValType, V: e.sentinel("context.DeadlineExceeded")}
@@ -112,9 +112,16 @@ func init() {
 		}
 		return ch, true
 	}
+	intrinsics["(*github.com/containerd/ttrpc.Server).Serve"] = func(e *Exec, g *G, fn *ssa.Function, args []Value) (Value, bool) {
+		// reached only once the server was closed (see visibleCall): Serve returns ErrServerClosed
+		return Iface{T: errValType, V: e.sentinel("github.com/containerd/ttrpc.ErrServerClosed")}, true
+	}
 	nilErr := func(e *Exec, g *G, fn *ssa.Function, args []Value) (Value, bool) { return Iface{}, true }
 	intrinsics["(*github.com/containerd/ttrpc.Client).Close"] = nilErr
-	intrinsics["(*github.com/containerd/ttrpc.Server).Close"] = nilErr
+	intrinsics["(*github.com/containerd/ttrpc.Server).Close"] = func(e *Exec, g *G, fn *ssa.Function, args []Value) (Value, bool) {
+		e.serverClosed[args[0].(Ptr)] = true
+		return Iface{}, true
+	}
 }
 
 // ctxObjType: pseudo dynamic type of engine contexts
@@ -124,6 +131,23 @@ var ctxObjType types.Type = types.NewPointer(types.NewNamed(
 // addTimer registers a pseudo goroutine that fires (sends on / closes) ch at an arbitrary scheduling point.
 func (e *Exec) addTimer(ch *ChanObj, kind string) {
 	tg := &G{id: len(e.gs), name: kind, timer: ch, timerKind: kind}
-	tg.pending = &visOp{kind: "timer", desc: kind + " fires", enabled: func() bool { return !tg.done }}
+	// a timer's effect is only observable through a receive on its channel: it needs to be schedulable
+	// only while some goroutine is parked at a receive/select on that channel (sound reduction)
+	tg.pending = &visOp{kind: "timer", desc: kind + " fires", enabled: func() bool {
+		if tg.done {
+			return false
+		}
+		for og, chans := range e.ss.parkedRecv {
+			if og.done || og.pending == nil {
+				continue
+			}
+			for _, c := range chans {
+				if c == ch {
+					return true
+				}
+			}
+		}
+		return false
+	}}
 	e.gs = append(e.gs, tg)
 }
